@@ -37,7 +37,9 @@ class PostOrderIterator(Iterator[Block]):
             term = block.last_op
             if isinstance(term, Operation) and term.has_trait(IsTerminator()):
                 self.stack.extend(
-                    (x, False) for x in reversed(term.successors) if x not in self.seen
+                    (x, False)
+                    for x in reversed(dict.fromkeys(term.successors))
+                    if x not in self.seen
                 )
                 self.seen.update(term.successors)
             # stack cannot be empty here
